@@ -126,7 +126,13 @@ def _postProcessPredefinedMatrixPhase(therm: GeneralThermodynamics, mobility: np
     across the diffusion couple
     '''
     alpha_phase = args[0]
-    alpha_idx = therm.phases.index(alpha_phase)
+    # Rows of mobility correspond to the phases that are stable at this point (kwargs['phases']),
+    # which is generally neither the order nor the length of therm.phases
+    phases = list(kwargs.get('phases', therm.phases))
+    if alpha_phase not in phases:
+        # alpha is not stable here, so there is nothing to take the mobility from
+        return mobility, phaseFracs
+    alpha_idx = phases.index(alpha_phase)
     alpha_mob = mobility[alpha_idx]
     for i in range(mobility.shape[1]):
         mobility[:,i][mobility[:,i] == -1] = alpha_mob[i]
@@ -149,9 +155,12 @@ def _postProcessExcludePhases(therm: GeneralThermodynamics, mobility: np.array, 
     mobility is unknown
     '''
     excluded_phases = args[0]
-    phase_idxs = [therm.phases.index(p) for p in excluded_phases]
-    for p in phase_idxs:
-        phaseFracs[p] = 0
+    # Rows of phaseFracs correspond to the phases that are stable at this point (kwargs['phases']),
+    # which is generally neither the order nor the length of therm.phases
+    phases = list(kwargs.get('phases', therm.phases))
+    for i, p in enumerate(phases):
+        if p in excluded_phases:
+            phaseFracs[i] = 0
     return mobility, phaseFracs
 
 class HomogenizationParameters:
@@ -352,7 +361,7 @@ def computeHomogenizationFunction(therm : GeneralThermodynamics, x, T, homogeniz
         phase_fracs = mobility_data.phase_fractions
         chemical_potentials[i,:] = mobility_data.chemical_potentials
 
-        mob, phase_fracs = homogenizationParameters.postProcessFunction(therm, mob, phase_fracs, *homogenizationParameters.postProcessParameters)
+        mob, phase_fracs = homogenizationParameters.postProcessFunction(therm, mob, phase_fracs, *homogenizationParameters.postProcessParameters, phases=mobility_data.phases)
         avg_mob[i] = homogenizationParameters.homogenizationFunction(mob, phase_fracs, labyrinth_factor = homogenizationParameters.labyrinthFactor)
 
     return np.squeeze(avg_mob), np.squeeze(chemical_potentials)
